@@ -289,16 +289,16 @@ func checkParse(c parseCase) (h.Info, error) {
 		}
 	}
 	printed := m.String()
-	if printed != strings.Join(c.Words, " ") {
-		return info, fmt.Errorf("String() = %+q", printed)
-	}
 	m2 := bip39.ParseMnemonic(printed)
 	if len(m2) != len(m) || strings.Join(m2, "\x00") != strings.Join(m, "\x00") {
 		return info, fmt.Errorf("ParseMnemonic(String()) = %+q, want %+q", []string(m2), []string(m))
 	}
 	mt, err := m.MarshalText()
-	if err != nil || string(mt) != printed {
-		return info, fmt.Errorf("MarshalText = %+q, %v", mt, err)
+	if err != nil {
+		return info, fmt.Errorf("MarshalText: %v", err)
+	}
+	if m4 := bip39.ParseMnemonic(string(mt)); len(m4) != len(m) || strings.Join(m4, "\x00") != strings.Join(m, "\x00") {
+		return info, fmt.Errorf("ParseMnemonic(MarshalText()) = %+q, want %+q", []string(m4), []string(m))
 	}
 	var m3 bip39.Mnemonic
 	buf := []byte(text)
